@@ -263,10 +263,37 @@ def run_special_instants(y, ctx):
         eta, pi_, p = PR.ecliptical_angles(T, -T)
         L = Earth.geometric_heliocentric_position(Epoch(t), tofk5=False)[0]._deg
         return math.cos(math.radians(pi_ - L))
+
+    def f_n(t):
+        T = (t - J2000) / 36525.0
+        eta, pi_, p = PR.ecliptical_angles(T, -T)
+        L = Earth.geometric_heliocentric_position(Epoch(t), tofk5=False)[0]._deg
+        return math.sin(math.radians(pi_ - L))
+
+    def f_c(t):
+        return math.cos(math.radians(Sun.apparent_longitude_coarse(Epoch(t))[0]._deg))
+
+    def f_psi(t):
+        return nutation_longitude(Epoch(t))._deg
+
+    def f_eps(t):
+        return nutation_obliquity(Epoch(t))._deg
+
+    def f_om(t):
+        T = (t - J2000) / 36525.0
+        om = 125.04452 + T * (-1934.136261 + T * (0.0020708 + T / 450000.0))
+        return math.sin(math.radians(om))
     found = 0
-    for name, f, step in (("R = 1 AU", f_r, 5.0), ("longitude 90 deg from the node", f_q, 5.0)):
+    fam = [("R = 1 AU", f_r, 5.0, 366.0), ("longitude 90 deg from the node", f_q, 5.0, 366.0),
+           ("longitude on the line of nodes", f_n, 5.0, 366.0),
+           # nutation in longitude / obliquity passing through zero, and the node argument of the series passing 0 / 180
+           ("nutation in longitude = 0", f_psi, 3.0, 9.4 * 365.25), ("nutation in obliquity = 0", f_eps, 3.0, 9.4 * 365.25),
+           ("node argument of the nutation series = 0 or 180", f_om, 30.0, 9.4 * 365.25)]
+    if 1800 <= y <= 2199:
+        fam.append(("coarse apparent longitude = 90 or 270", f_c, 5.0, 366.0))
+    for name, f, step, span in fam:
         t, prev = j0, f(j0)
-        while t < j0 + 366.0:
+        while t < j0 + span:
             t2 = t + step
             cur = f(t2)
             ctx.evals += 1
@@ -277,7 +304,7 @@ def run_special_instants(y, ctx):
                           math.nextafter(hi, math.inf), math.nextafter(lo, -math.inf)):
                     ctx.evals += 1
                     ctx.nt_count += 1
-                    res = check_apparent_minus_geometric(x) + check_reflection(x)
+                    res = check_apparent_minus_geometric(x) + check_reflection(x) + check_obliquity(x)
                     if 1800 <= y <= 2199:
                         res += check_coarse(x)
                     res += check_earth_j2000(x)
@@ -292,7 +319,7 @@ def run_special_instants(y, ctx):
 
 def replay_special(case):
     j = case["jde"]
-    res = check_apparent_minus_geometric(j) + check_reflection(j)
+    res = check_apparent_minus_geometric(j) + check_reflection(j) + check_obliquity(j)
     y = 2000.0 + (j - J2000) / 365.25
     if 1800 <= y <= 2199:
         res += check_coarse(j)
